@@ -337,7 +337,13 @@ class AbstractNDArray(ABC):
         return result
 
     def __setitem__(self, key, value):
-        if isinstance(key, (np.ndarray, AbstractNDArray, Array)):
+        if isinstance(key, AbstractNDArray):
+            key = key.array
+        if (
+            isinstance(key, (np.ndarray, Array))
+            and key.dtype == bool
+            and key.shape == self._array.shape
+        ):
             self._array = npw.where(key, value, self._array)
         else:
             self._array[key] = value
